@@ -3,6 +3,7 @@
 
 import <prop> <name>        copy /tmp/wt/<prop>/_seeded/{patch.diff,demo.py,meta.json} to /verif/seeded/<name>/
 verify <name>               in a scratch export of /repo HEAD: demo exits 0 without the patch, 1 with it; the 138 tests pass with it
+confirm <name> <prop>       replay-based confirmation (fails with the patch, passes without) for seeds whose demo a later /repo repair invalidated
 detect <name> <prop>...     run the quick checks of the given properties against the patched scratch copy; record outcome in meta.json
 """
 import json, os, shutil, subprocess, sys, tempfile, time
@@ -102,6 +103,27 @@ def main():
             shutil.rmtree(d1)
         json.dump(meta, open(meta_p, 'w'), indent=1)
         return
+    if cmd == 'confirm':
+        # confirmation on the current tree by the simulator itself, for seeds whose demo.py was invalidated by a later
+        # repair of /repo: the minimised replay of the detecting check must fail with the patch and pass without it
+        prop = sys.argv[3]
+        line = next((l for l in meta.get('detection', {}).get(prop, {}).get('lines', []) if l.startswith('VIOLATION')), None)
+        assert line, 'no VIOLATION line recorded for ' + prop
+        src = line.split('replay=', 1)[1].strip()
+        dst = os.path.join(sd, 'replay.json')
+        if os.path.exists(src):
+            shutil.copy(src, dst)
+        d0 = scratch(); d1 = scratch(os.path.join(sd, 'patch.diff'))
+        try:
+            rc1, out1 = sh(f'/venv/bin/python sim/replay.py {dst}', cwd=ROOT, env=dict(env, VERIF_REPO=d1))
+            rc0, out0 = sh(f'/venv/bin/python sim/replay.py {dst}', cwd=ROOT, env=dict(env, VERIF_REPO=d0))
+        finally:
+            shutil.rmtree(d0); shutil.rmtree(d1)
+        meta['confirmed_by_replay'] = {'ok': rc1 == 1 and rc0 == 0, 'replay': f'seeded/{name}/replay.json', 'exit_with_patch': rc1, 'exit_without_patch': rc0,
+                                       'tail_with_patch': out1[-300:], 'tail_without_patch': out0[-200:],
+                                       'how': 'sim/replay.py on the minimised scenario of the detecting check, VERIF_REPO = scratch export of /repo HEAD with / without patch.diff'}
+        json.dump(meta, open(meta_p, 'w'), indent=1)
+        print(json.dumps(meta['confirmed_by_replay'], indent=1)); return
     raise SystemExit(__doc__)
 
 if __name__ == '__main__':
